@@ -529,7 +529,7 @@ end Layers
 
 structure Shard where
   series : KvStore := {}                     -- tags hash → series id, bucket = metric id
-  seqCache : Nat → Option Nat := fun _ => none  -- sequenceCache (LRU, assumed not to evict)
+  seqCache : Nat → Option Nat := fun _ => none  -- sequenceCache (LRU; eviction / expiry = `Shard.evictSeq`, `FOp.evictSeq`)
   minv : Layers (Nat × Nat) := {}            -- metricInverted: (metric id, series id)
   fwd : Layers (Nat × Nat × Nat) := {}       -- forward: (tag key id, tag value id, series id)
   inv : Layers (Nat × Nat) := {}             -- inverted: (tag value id, series id)
@@ -574,6 +574,12 @@ def flushStep (sh : Shard) : Nat → Shard
 def recover (sh : Shard) : Shard :=
   { series := sh.series.recover, minv := sh.minv.recover, fwd := sh.fwd.recover, inv := sh.inv.recover }
 
+/-- `sequenceCache` (an `expirable.LRU` with 100000 entries and a one-hour TTL) drops the entry of metric `m`:
+eviction by capacity or expiry by time, at any moment. The next `createSeriesID m` takes the miss branch
+(`metricInverted.getSeriesIDs`: kv family ∪ mutable ∪ immutable). -/
+def evictSeq (sh : Shard) (m : Nat) : Shard :=
+  { sh with seqCache := fun j => if j = m then none else sh.seqCache j }
+
 end Shard
 
 /-! ## The node: one metadata database shared by the shards -/
@@ -603,6 +609,8 @@ structure Cfg where
   /-- `metricIndexDatabase.Flush` returns at once when one of its steps fails (`if err := step(); err != nil
   { return err }` around every step, lindb) — otherwise the remaining steps still run (e.g. `errors.Join`) -/
   indexFlushAborts : Bool := true
+  /-- the LRU bucket cache of `indexKVStore` releases a bucket (its tries go back to the pool) when it evicts / purges it -/
+  kvCacheReleasesOnEvict : Bool := false
   deriving DecidableEq, Repr
 
 structure Node where
@@ -780,6 +788,20 @@ def bucketCacheRace (c : Cfg) (nd : Node) (nb nsName x : Nat) : Node × GenOut :
         let i := nd1.seqMem.metric
         (afterAlloc c { nd1 with metric := nd1.metric.insert nsID x i, seqMem := { nd1.seqMem with metric := i + 1 } }, .id i)
   | _, _ => nd1.genMetric c nb nsName x
+
+/-- witness for a cached bucket that is released under a lock-free reader (`GenTagValueID`; bucket = tag key id).
+The reader has missed in memory and holds the bucket of `tk` (from the LRU cache), it is stopped before
+`bucket.GetValue`; a flush purges the cache — with an eviction callback that calls `TrieBucket.Release` the
+bucket's tries go back to `trie`'s pool; another lookup loads the bucket of `tkOther`, which takes the same trie
+object out of the pool and unmarshals ITS content into it; the reader continues and answers from the bucket of
+`tkOther` in the current snapshot (when the value is not there: not found → `createValue`, whose locked re-check
+finds the right id). `nd` is the state after the flush. Without the callback the reader's bucket stays what it was. -/
+def bucketReleaseRace (c : Cfg) (nd : Node) (tk v tkOther : Nat) : Node × GenOut :=
+  if c.kvCacheReleasesOnEvict then
+    match nd.tagValue.snap tkOther v with
+    | some i => (nd, .id i)
+    | none => nd.genTagValueID c tk v
+  else nd.genTagValueID c tk v
 
 /-- witness schedule reader ‖ writer ‖ flush on a schema that is persisted and not in memory:
 a reader's `GetSchema(m)` has read the kv family and is stopped before `cache.Add`; a writer creates
@@ -985,6 +1007,7 @@ inductive FOp
   | op (o : Op)                       -- any operation of the sequential history model (crashes, reopen, failed metadata flushes included)
   | indexFlushFault (shard k : Nat)   -- one shard's real `Flush()` during which step `k` fails (k ≥ 4: no fault)
   | metricLim (nb ns name : Nat)      -- `GenMetricID` under namespace / metric-name limits (may be refused)
+  | evictSeq (shard m : Nat)          -- one shard's LRU `sequenceCache` drops metric `m` (capacity eviction / TTL expiry)
   deriving Repr
 
 /-- `steps` / `abort`: order and control flow of `metricIndexDatabase.Flush` (regenerated facts, see IdAssignCfg) -/
@@ -992,6 +1015,7 @@ def fstep (c : Cfg) (steps : List Nat) (nd : Node) : FOp → Node
   | .op o => (step c nd o).1
   | .indexFlushFault sh k => (nd.indexFlushFault c.indexFlushAborts steps sh k).1
   | .metricLim nb ns name => (nd.genMetricLim c nb ns name).1
+  | .evictSeq sh m => nd.setShard sh ((nd.shards sh).evictSeq m)
 
 def frun (c : Cfg) (steps : List Nat) : Node → List FOp → Node
   | nd, [] => nd
